@@ -210,3 +210,28 @@ fn c03_apply_guard_refuses_unknown_version() {
     assert!(matches!(buffered_apply_precheck(&bv, CrsqlDbVersion(VERSION), ACTOR), Ok(false)));
     core::mem::forget(bv);
 }
+
+/// a changeset is booked as "cleared" (known, nothing to apply) without going through the apply /
+/// buffer path ONLY if it is complete: an empty chunk for a proper sub-range of a version (which a
+/// relay really sends when later versions overwrote those sequences) must still be buffered as a
+/// chunk, otherwise the version is marked known while other chunks are missing
+#[kani::proof]
+fn c03_only_complete_changesets_are_booked_without_applying() {
+    let (s0, s1, last): (u64, u64, u64) = (kani::any(), kani::any(), kani::any());
+    kani::assume(s0 <= s1 && s1 <= last);
+    let with_rows: bool = kani::any();
+    let mut changes = Vec::new();
+    if with_rows {
+        changes.push(Change { seq: CrsqlSeq(s0), ..Default::default() });
+    }
+    let change = ChangeV1 { actor_id: ACTOR, changeset: Changeset::Full { version: CrsqlDbVersion(VERSION), changes, seqs: CrsqlSeq(s0)..=CrsqlSeq(s1), last_seq: CrsqlSeq(last), ts: Timestamp(0) } };
+    let cleared = booked_as_cleared_without_applying(&change);
+    if cleared {
+        assert!(s0 == 0 && s1 == last, "C03: a chunk covering only part of a version is booked as if the whole version were known");
+        assert!(!with_rows, "C03: a changeset carrying changes is booked without applying them");
+    }
+    let empty = ChangeV1 { actor_id: ACTOR, changeset: Changeset::Empty { versions: CrsqlDbVersion(1)..=CrsqlDbVersion(3), ts: None } };
+    assert!(booked_as_cleared_without_applying(&empty), "C03: an Empty changeset must be booked as cleared");
+    kani::cover!(cleared, "complete empty changeset");
+    core::mem::forget((change, empty));
+}
